@@ -167,7 +167,24 @@ class C19(Property):
             '(run-length coded cases: {rle: [[hex, count], ...]}); one line 17..2049 bytes long read with block sizes 1, 2, 3, 5; '
             'contents of 5-70 KB with lines of 4095..20000 bytes read with block sizes 1000, 4096, 8191, 8192, 65536; the small '
             'contents again on real files of five kinds (rb, rb unbuffered, r+b, r utf-8, r utf-8 newline=\'\') and with the file '
-            'position moved away from 0 before the reader gets the file (case key pre).')
+            'position moved away from 0 before the reader gets the file (case key pre). '
+            'ROUND 5, generated right after the tiny exhaustive families: SIZES AT IMPLEMENTATION THRESHOLDS (255, 256, 257, 258 - '
+            'CPython shares int objects up to 256 -, 1000, 4095, 4096, 4097, 8192, 65536): texts of those lengths ending / not '
+            'ending in each of the eight break forms, the break starting at N-1, N, N+1 or leading, N breaks, N one-character '
+            'lines, fillers of all four string widths, the same through indent (run-length coded texts: {tr: [[code points, '
+            'count], ...]}); files of B-1 .. 3B+1 bytes read with blocksize B for B on the thresholds, a break 2 before .. 1 after '
+            'every block edge counted from either end, 255..258 lines, lines of 255..258 bytes, 65535..65537-byte files; '
+            'preseek=False with the position on the thresholds; JSONL records of 255..258 / 1000 bytes in nine shapes, files of '
+            '255..258 / 1000 records, total sizes on the thresholds, rel_seek on such files. ARGUMENT FORMS (key call): every '
+            'parameter by keyword / positionally, flags that are truthy or falsy objects but not bools, the default blocksize '
+            'left out, .next() for next(), indent keys returning non-bools, encoding= given (binary file read with '
+            "encoding='utf-8': mode te; 'latin-1': mode tl via kw; utf-8 text file read as latin-1: via ov). HISTORIES (key "
+            'hist): earlier complete calls of the whole family in other forms, live sibling generators (idle, or advanced between '
+            'the steps of the judged iteration), earlier FAILED calls (bad types, closed file, a text file dying of '
+            'UnicodeDecodeError inside the generator, rejected rel_seek, corrupt record in strict mode), the same binary file '
+            'object used before; the judged call is made twice and must answer the same. LIFETIME (key own): the generator holds '
+            'the only reference to its file. Every dict / list JSONLIterator returns is changed by the caller before the next '
+            'record is read; exhausted generators / iterators are asked once more; indent with margin, newline, text one object.')
     ASSUMPTIONS = ['text is a sequence of Unicode scalar values (no lone surrogates); text-mode files are opened as utf-8 and hold valid '
                    'UTF-8, or (mode tl) are opened as latin-1 - there reverse_iter_lines fails on the code as it is: known finding '
                    'C19-reverse-ignores-encoding, outside the model until the repair is in (probe ENC_OK)',
